@@ -207,4 +207,11 @@ def lex (s : Bytes) : Except LexErr (List Tok) :=
   if s.isEmpty then .error (.at 0)
   else lexLoop (s.length + 1) (St.skipWs { acc := [], ntype := false, func := false, pos := 0, rest := s })
 
+/-- specification predicate for token arrays, read from the LAST token backwards (`acc` = last token first): every token
+is the slice of `s` at its offset (`tok_pos`, `tok_len`), ends at or before `bound`, and the token before it ends at or before
+its offset — the tokens are non-overlapping substrings of the input, in order -/
+def Chain (s : Bytes) : Nat → List Tok → Prop
+  | _, [] => True
+  | bound, t :: r => t.pos + t.text.length ≤ bound ∧ t.text = (s.drop t.pos).take t.text.length ∧ Chain s t.pos r
+
 end LyModel.XPath.Lex
